@@ -104,7 +104,8 @@ def one_round(rng, nthreads, nreq):
     for e in engines:
         leaf = e.make_leaf({a}, iteration.RowSequence([]) if isinstance(e, iteration.Engine) else object(), name=f"base_{id(e)}")
         bases.append(leaf.without_duplicates())
-    prefixes = ["leaf", "materialization", "tmp", "x_1", "", "p" * 58, "long_prefix_" * 6, "q" * 70]
+    prefixes = ["leaf", "materialization", "tmp", "x_1", "", "p" * 58, "long_prefix_" * 6, "q" * 70,
+                "deepCoadd.calexp", "raw-2", "u/someone/run 1", "Ünï_cødé", "materialization_"]
     plans = []
     for t in range(nthreads):
         r = random.Random(rng.random())
